@@ -585,9 +585,12 @@ func (m *gModel) expand(r gRef, depth int) string {
 	return strings.Join(lines, "|")
 }
 
-func (m *gModel) anchors() []string {
+func (m *gModel) anchors(known map[string]bool) []string {
 	var l []string
 	for _, r := range m.objects() {
+		if ifc := m.interfaceOf(r); ifc != "" && !known[ifc] {
+			continue
+		}
 		if gIsAnchor(r.kind, r.name) {
 			l = append(l, m.expand(r, 0))
 		}
@@ -677,7 +680,50 @@ func VerifASAGraph() {
 	a.WriteString(gBase)
 	b.WriteString(gBase)
 	full := vf.Param("full", "0") == "1"
+	part := vf.Param("part", "vpn")
 	var gps, acls, pools []string
+	if part == "dmz" {
+		// an interface Netspoc does not know, shut down or not, with ACLs
+		// bound to it (names with or without the generated-name tag)
+		vf.Assumption("part dmz: device has an interface unknown to Netspoc (shutdown or not) with an inbound and optionally an outbound access-group; ACL names with or without -DRC-; one ACL line may use a manually created object-group")
+		name := vf.FixString(vf.Pick("a.dmz.aclName", []string{"dmz_in", "dmz_in-DRC-0"}))
+		a.WriteString("interface Ethernet0/1\n nameif dmz\n")
+		if vf.Bool("a.dmz.shutdown") {
+			a.WriteString(" shutdown\n")
+			vf.Cover("unknown interface is shut down")
+		}
+		if vf.Bool("a.dmz.group") {
+			a.WriteString("object-group network dmz-servers\n network-object host 10.5.5.5\n")
+			a.WriteString("access-list " + name + " extended permit ip object-group dmz-servers any4\n")
+		} else {
+			a.WriteString("access-list " + name + " extended permit ip 10.5.5.0 255.255.255.0 any4\n")
+		}
+		a.WriteString("access-list " + name + " extended deny ip any4 any4\n")
+		a.WriteString("access-group " + name + " in interface dmz\n")
+		if vf.Bool("a.dmz.out") {
+			a.WriteString("access-list dmz_out extended permit ip any4 10.5.5.0 255.255.255.0\naccess-list dmz_out extended deny ip any4 any4\n")
+			a.WriteString("access-group dmz_out out interface dmz\n")
+			vf.Cover("unknown interface with in and out access-group")
+		}
+		vf.Cover("interface unknown to Netspoc on device")
+	}
+	if part == "cert" {
+		vf.Assumption("part cert: certificate map + tunnel-group (type, general-, ipsec-attributes with trust-point) bound by tunnel-group-map; target changes subject-name and/or trust-point")
+		if vf.Bool("a.cert") {
+			a.WriteString("crypto ca certificate map ca-map-DRC-0 10\n subject-name attr ea co @sub.example.com\n")
+			a.WriteString("tunnel-group VPN-tunnel-DRC-0 type remote-access\ntunnel-group VPN-tunnel-DRC-0 general-attributes\ntunnel-group VPN-tunnel-DRC-0 ipsec-attributes\n trust-point TP1\n")
+			a.WriteString("tunnel-group-map ca-map-DRC-0 10 VPN-tunnel-DRC-0\n")
+			vf.Cover("certificate map binding on device")
+		}
+		if vf.Bool("b.cert") {
+			sub := vf.FixString(vf.Pick("b.cert.subject", []string{"@sub.example.com", "@other.example.com"}))
+			tp := vf.FixString(vf.Pick("b.cert.trustpoint", []string{"TP1", "TP2"}))
+			b.WriteString("crypto ca certificate map ca-map 10\n subject-name attr ea co " + sub + "\n")
+			b.WriteString("tunnel-group VPN-tunnel type remote-access\ntunnel-group VPN-tunnel general-attributes\ntunnel-group VPN-tunnel ipsec-attributes\n trust-point " + tp + "\n")
+			b.WriteString("tunnel-group-map ca-map 10 VPN-tunnel\n")
+			vf.Cover("certificate map binding in target")
+		}
+	}
 	// device: managed user chain
 	if vf.Bool("a.user") {
 		t, al, pl := gPolicy("a.g1", "VPN-group-G1-DRC-0", "vpn-filter-G1-DRC-0", "pool-G1-DRC-0", 2, 1, []string{"Welcome"})
@@ -687,14 +733,14 @@ func VerifASAGraph() {
 		vf.Cover("managed VPN user on device")
 	}
 	// device: left-over generated chain (not referenced by any anchor)
-	if vf.Bool("a.leftover") {
+	if part == "vpn" && vf.Bool("a.leftover") {
 		t, al, pl := gPolicy("a.g2", "VPN-group-G2-DRC-0", "vpn-filter-G2-DRC-0", "pool-G2-DRC-0", 1, 1, []string{"Welcome"})
 		a.WriteString(t)
 		gps, acls, pools = append(gps, "VPN-group-G2-DRC-0"), append(acls, al...), append(pools, pl...)
 		vf.Cover("left-over generated group-policy on device")
 	}
 	// device: manually created objects that may refer to generated ones
-	if vf.Bool("a.manualGP") {
+	if part == "vpn" && vf.Bool("a.manualGP") {
 		a.WriteString(gACL("manual-filter", 0))
 		filter := vf.FixString(vf.Pick("a.manualGP.filter", append([]string{"manual-filter"}, acls...)))
 		a.WriteString("group-policy MANUALGP internal\ngroup-policy MANUALGP attributes\n banner value manual\n vpn-filter value " + filter + "\n")
@@ -704,13 +750,13 @@ func VerifASAGraph() {
 		gps = append(gps, "MANUALGP")
 		vf.Cover("unmanaged group-policy on device")
 	}
-	if len(gps) > 0 && vf.Bool("a.ldap") {
+	if part == "vpn" && len(gps) > 0 && vf.Bool("a.ldap") {
 		gp := vf.FixString(vf.Pick("a.ldap.policy", gps))
 		a.WriteString("aaa-server LDAP_KV protocol ldap\naaa-server LDAP_KV (inside) host 10.2.8.16\n ldap-base-dn DC=example,DC=com\n ldap-attribute-map LDAPMAP\n")
 		a.WriteString("ldap attribute-map LDAPMAP\n map-name memberOf Group-Policy\n map-value memberOf CN=g-m1,OU=VPN,DC=example,DC=com " + gp + "\n")
 		vf.Cover("unmanaged ldap attribute-map on device")
 	}
-	if len(gps) > 0 && vf.Bool("a.manualTG") {
+	if part == "vpn" && len(gps) > 0 && vf.Bool("a.manualTG") {
 		gp := vf.FixString(vf.Pick("a.manualTG.policy", gps))
 		a.WriteString("tunnel-group MANUAL-TG type remote-access\ntunnel-group MANUAL-TG general-attributes\n default-group-policy " + gp + "\n")
 		vf.Cover("unmanaged tunnel-group on device")
@@ -756,9 +802,15 @@ func VerifASAGraph() {
 	// out-of-scope objects: not reachable from an anchor, name without the
 	// generated-name tag, and everything they reference
 	var anchorRoots, unmanagedRoots []gRef
+	known := tgt.nameifs()
 	for _, r := range dev.objects() {
 		if gIsAnchor(r.kind, r.name) {
-			anchorRoots = append(anchorRoots, r)
+			if ifc := dev.interfaceOf(r); ifc != "" && !known[ifc] {
+				// interface unknown to Netspoc and what is bound to it
+				unmanagedRoots = append(unmanagedRoots, r)
+			} else {
+				anchorRoots = append(anchorRoots, r)
+			}
 		}
 	}
 	managed := dev.closure(anchorRoots)
@@ -798,7 +850,7 @@ func VerifASAGraph() {
 		}
 	}
 	// converge: anchors of device and target agree up to names
-	da, ta := dev.anchors(), tgt.anchors()
+	da, ta := dev.anchors(known), tgt.anchors(known)
 	vf.Note("ANCHORS device:", strings.Join(da, " ## "), "target:", strings.Join(ta, " ## "))
 	vf.Assert(strings.Join(da, "\n") == strings.Join(ta, "\n"), "C01: ASA: VPN objects after executing the script differ from the target")
 	// second compare on the resulting device
@@ -817,6 +869,43 @@ func VerifASAGraph() {
 		vf.Note("CHG2:", c)
 	}
 	vf.Assert(len(s2.Changes) == 0, "C01: ASA: second compare still reports changes (VPN objects)")
+}
+
+// logical interface names defined in a configuration
+func (m *gModel) nameifs() map[string]bool {
+	r := map[string]bool{}
+	for _, e := range m.entries {
+		if strings.HasPrefix(e.top, "interface ") {
+			for _, s := range e.subs {
+				if w := strings.Fields(s); len(w) == 2 && w[0] == "nameif" {
+					r[w[1]] = true
+				}
+			}
+		}
+	}
+	return r
+}
+
+// logical interface an anchor belongs to ("" if none)
+func (m *gModel) interfaceOf(r gRef) string {
+	switch r.kind {
+	case "access-group":
+		w := strings.Fields(r.name)
+		if len(w) == 5 && w[3] == "interface" {
+			return w[4]
+		}
+	case "interface":
+		for _, e := range m.entries {
+			if e.top == r.name {
+				for _, s := range e.subs {
+					if w := strings.Fields(s); len(w) == 2 && w[0] == "nameif" {
+						return w[1]
+					}
+				}
+			}
+		}
+	}
+	return ""
 }
 
 func sortedRefs(m map[gRef]bool) []gRef {
